@@ -195,6 +195,9 @@ func (c *Ctx) rollbackFamily(prefix string) {
 	rmJournal := c.osCall("Remove", "litefs.(*DB).JournalPath(p0)")
 	c.Expect(prefix+"/valid-means-header-read", strings.Join(c.returnsOf("litefs.(*JournalReader).IsValid"), ";"), pat("p0.isValid"),
 		"JournalReader.IsValid reports exactly whether a journal header was read - nothing about the size it holds", "a journal of the first transaction of a database records size 0: rollback must still resize the file to it, or the uncommitted pages stay")
+	c.EveryIterationG(prefix+"/role-change-recovers-every-database", "litefs.(*Store).Recover",
+		G(`^\(\(phi\(-1\) \+ 1\) < builtin\.len\(litefs\.\(\*Store\)\.DBs\(p0\)\)\)$`, true), c.P.PlainCalls("litefs.(*DB).Recover"), 1,
+		"the recovery that runs at every role change recovers every database the store knows - under no condition on the database", "a database with no committed page (new, or dropped and re-created) can hold the hot journal of its first transaction: skipped, the uncommitted pages stay")
 	c.Guarded(prefix+"/truncate-valid-only", rb, trunc, gs(GP("litefs.(*JournalReader).IsValid(@@)", true)), 1,
 		"the database is resized only when a valid journal header was read", "resizing to a zero/garbage size destroys the database")
 	{
